@@ -25,7 +25,8 @@ RULE = (
     "retry'. Each report: hash absent from the current db, present in the full db, never "
     "reported twice, root_hash/requested_key correct; lookups/traversals: (prefix, hash) "
     "is exactly a hashed node on the reference path (relative to the start node for "
-    "traverse_from); set/delete: hash is a path node or a direct child of one. After "
+    "traverse_from); set (and delete of an absent key): hash is a node on the key's path; "
+    "effective delete: a path node or a direct child of one (collapse sibling). After "
     "each failed call db (incl. scratch view), root and ref counts are unchanged. The "
     "loop must end within #hidden retries with the complete-database result (model "
     "value / reference root / same node or TraversedPartialPath). Exhaustive part: ALL "
@@ -268,11 +269,15 @@ def run_case(case):
                            f"nibbles {rel}; hashed nodes on the path: "
                            f"{[(p, x.hex()[:8]) for p, x in on_path]}")
         else:
-            ok = any(p in path_prefixes for p in where[h]) or any(
+            on_key_path = any(p in path_prefixes for p in where[h])
+            # A delete that really removes a key may additionally need the one remaining
+            # sibling below a path node (to collapse the branch); nothing else is needed.
+            sibling_ok = kind in ("delete", "sete") and key in model and any(
                 h in children_of[p] for p in path_prefixes)
-            expect("mutation-report-on-path-or-sibling", ok,
-                   lambda: f"{kind}({key!r}) reported {h.hex()} which is neither on the key's "
-                           f"path nor a child of a path node")
+            expect("mutation-report-on-path-or-sibling", on_key_path or sibling_ok,
+                   lambda: f"{kind}({key!r}) reported {h.hex()} at {where[h]} which does not lie on "
+                           f"the key's path {path_prefixes}"
+                           + ("" if kind == "set" or key not in model else " nor directly below it"))
             if exc.prefix is not None:
                 pfx = tuple(int(x) for x in exc.prefix)
                 expect("mutation-report-prefix", pfx in where[h],
